@@ -123,11 +123,23 @@ pub fn gen_fs_plan(seed: u64, _tier: Tier) -> FsPlan {
             continue;
         }
         file_names.push(name.clone());
+        // a zone split into fragments that share a copied header: the same SOA,
+        // field for field, as an earlier file for this apex
+        let copied: Option<(u32, u32)> = zone_files
+            .iter()
+            .rev()
+            .find(|z: &&ZoneFile| z.apex == apex && z.soa_minimum.is_some())
+            .map(|z| (z.soa_serial, z.soa_minimum.unwrap()))
+            .filter(|_| authoritative && r.chance(0.3));
         zone_files.push(ZoneFile {
             path: name,
             apex,
-            soa_minimum: if authoritative { Some(*r.pick(&[30u32, 60, 300])) } else { None },
-            soa_serial: 100 + i as u32,
+            soa_minimum: if authoritative {
+                Some(copied.map_or_else(|| *r.pick(&[30u32, 60, 300]), |c| c.1))
+            } else {
+                None
+            },
+            soa_serial: copied.map_or(100 + i as u32, |c| c.0),
             records,
         });
     }
@@ -526,7 +538,7 @@ impl Property for C12 {
             .collect()
     }
     fn rule(&self) -> String {
-        "1..5 zone files (shared or distinct apex, with or without SOA, differing SOA minimum, ordinary and wildcard records, overlaps and duplicates) and 0..3 hosts files (conflicts per name and family), spread over -z/-a files (in shuffled argument order) and -Z/-A directories that also contain sub-directories; resolved::fs::load_zone_configuration is run alone, four times per plan, while the simulated file seam permutes every directory listing and delays reads; each loaded configuration is compared with a set model (union per apex with per-file TTL raising, SOA of the last SOA-bearing file in application order, exactly one SOA record, hosts merged last into the root zone with later files winning per name and family). Non-trivial = two files share an apex or two hosts files share a name; distinct = distinct (plan shape, event log)".into()
+        "1..5 zone files (shared or distinct apex, with or without SOA, differing SOA minimum or the very same SOA repeated, ordinary and wildcard records, overlaps and duplicates) and 0..3 hosts files (conflicts per name and family), spread over -z/-a files (in shuffled argument order) and -Z/-A directories that also contain sub-directories; resolved::fs::load_zone_configuration is run alone, four times per plan, while the simulated file seam permutes every directory listing and delays reads; each loaded configuration is compared with a set model (union per apex with per-file TTL raising, SOA of the last SOA-bearing file in application order, exactly one SOA record, hosts merged last into the root zone with later files winning per name and family). Non-trivial = two files share an apex or two hosts files share a name; distinct = distinct (plan shape, event log)".into()
     }
     fn assumptions(&self) -> Vec<String> {
         vec![
